@@ -5,7 +5,7 @@ seeds=${SEEDS:-"2 3 12345"}
 bad=0; n=0
 for s in $seeds; do
   for p in $(python3 -c "import props; print(' '.join(sorted(props.PROPS)))"); do
-    out=$(VERIF_SEED=$s ./check $p 2>&1); r=$?; n=$((n+1))
+    out=$(VERIF_SEED=$s VERIF_NO_EVIDENCE=1 ./check $p 2>&1); r=$?; n=$((n+1))
     if [ $r -ne 0 ]; then bad=$((bad+1)); echo "ALARM seed=$s $p rc=$r"; echo "$out" | grep -E "^(  C|VIOLATION|HARNESS-ERROR)" | cut -c1-400 | head -6; fi
   done
 done
